@@ -100,6 +100,9 @@ Definition peer_spawns (sp : list spawn) : N :=
   len (filter (fun s => match s with SpPeer _ => true | _ => false end) sp).
 Definition spawns_agree (model observed : list spawn) : bool := list_eqb sp_eqb model observed.
 
+Fixpoint no_dup_N (l : list N) : bool :=
+  match l with [] => true | x :: r => negb (existsb (N.eqb x) r) && no_dup_N r end.
+
 Definition k_step (prev : mgr) (s : ostep) : bool :=
   let n := length (m_plens prev) in
   match s_op s with
@@ -127,7 +130,30 @@ Definition k_step (prev : mgr) (s : ostep) : bool :=
       let '(m', sp) := handle_tracker_resp prev (map (fun a => (a, [])) ps) in
       mgr_eqb m' (s_state s) && spawns_agree sp (s_sp s)
   | OChoose _ _ | OSkip => mgr_eqb prev (s_state s)
-  | OTick | OSet => true
+  | OTick =>
+      (* the timer's wrapper is compared with the model where the code's HashMap iteration order cannot matter: no two
+         peers with the same rate (stable descending sort: one result for every order).  The optimistic pick is read off
+         the observed state (there is one exactly when some peer is choked by us and interested; round 0 only) *)
+      match timer_rates prev with
+      | None =>
+          match timer_tick prev [] [] with
+          | Ok (m', _) => mgr_eqb m' (s_state s) && match s_bc s with [] => true | _ => false end
+          | _ => false
+          end
+      | Some rates =>
+          if negb (no_dup_N (map snd rates)) then true else
+          let cands := filter (fun kp => p_am_choked (snd kp) && p_interested (snd kp)) (m_peers prev) in
+          let pick := match cands with
+                      | [] => []
+                      | _ => map fst (filter (fun kp => p_optimistic (snd kp)) (m_peers (s_state s)))
+                      end in
+          match timer_tick prev rates pick, s_bc s with
+          | Ok (m', Some fl), [BOwnState fl'] => mgr_eqb m' (s_state s) && list_eqb flip_eqb (map_sort fl) (map_sort fl')
+          | Err, _ => match s_res s with XErr => true | _ => false end
+          | _, _ => false
+          end
+      end
+  | OSet => true
   end.
 
 (* ---- oracles --------------------------------------------------------------------------------- *)
